@@ -236,15 +236,39 @@ def values_clean(seed, nops=16):
         lines.append('OP %d spawn %d 1%s' % (p, h, comps))
         ents.append(h)
     lines.append('DRAIN 60')
-    for _ in range(nops):
-        h, t, p = r.choice(ents), r.choice(types), r.choice(peers)
+    used = {}
+
+    def write(p, h, t, v=None):
+        nonlocal val
         if (h, t) in last_writer and last_writer[(h, t)] != p:
             lines.append('DRAIN 60')
-        val += 1
-        v = val % 3 if t == 3 else val
+        if v is None:
+            val += 1
+            c = r.random()
+            if t == 3:
+                v = val % 3
+            elif t == 7 and c < 0.08:
+                v = 100000 + val               # a 100 kB Name: large payload
+            elif c < 0.3 and used.get((h, t)):
+                v = r.choice(used[(h, t)])     # an earlier value comes back (A-B-A)
+            else:
+                v = val
         lines.append('OP %d write %d %d %d' % (p, h, t, v))
         last_writer[(h, t)] = p
         last_value[(h, t)] = v
+        used.setdefault((h, t), []).append(v)
+    for _ in range(nops):
+        h, t, p = r.choice(ents), r.choice(types), r.choice(peers)
+        if r.random() < 0.3:
+            # a burst: the writer runs ahead of everybody, then the others catch up, then a reader writes
+            for _ in range(r.randint(2, 3)):
+                write(p, h, t)
+                lines.append('FRAME %d %d' % (p, r.randint(1, 2)))
+            if r.random() < 0.7:
+                q = r.choice([x for x in peers if x != p])
+                write(q, h, t)
+        else:
+            write(p, h, t)
         if r.random() < 0.75:
             _pace(r, lines, peers)
     lines.append('DRAIN 80')
@@ -303,6 +327,17 @@ def parents_clean(seed, nops=12):
     same_frame = r.random() < 0.3
     for h in range(1, k + 1):
         lines.append('OP %d spawn %d 1' % (r.choice(peers), h))
+    # application-private (never marked) entities with their own hierarchy, on some peers
+    private = {}
+    nh = k
+    for p in peers:
+        if r.random() < 0.6:
+            ids = []
+            for _ in range(r.randint(2, 3)):
+                nh += 1
+                lines.append('OP %d spawn %d 0' % (p, nh))
+                ids.append(nh)
+            private[p] = ids
     parent = {}
     if not same_frame:
         lines.append('DRAIN 60')
@@ -324,6 +359,11 @@ def parents_clean(seed, nops=12):
         if c in last and last[c] != p or same_frame:
             lines.append('DRAIN 60')
             same_frame = False
+        if p in private and r.random() < 0.5:
+            # unsynchronized hierarchy changes in the same frame as the synchronized one
+            a, b = private[p][0], private[p][1]
+            lines.append('OP %d parent %d %d' % (p, a, b) if r.random() < 0.5 else 'OP %d parent %d %d' % (p, b, a))
+            private[p] = [b, a] + private[p][2:]
         lines.append('OP %d parent %d %d' % (p, c, par))
         parent[c] = par
         last[c] = p
@@ -515,4 +555,82 @@ def skinned_clean(seed, nops=10):
         if r.random() < 0.8:
             _pace(r, lines, peers)
     lines.append('DRAIN 80')
+    return '\n'.join(lines) + '\n', {}
+
+
+def crash_cross(seed, rounds=8):
+    """C08: every message kind crossed with every receiver condition: while peer A changes an entity
+    (despawn / write / re-parent / use as parent / name it as a skinned-mesh joint), peer B gets rid
+    of the same entity at the same moment — directly between frames, or through application
+    systems that issue `Commands::despawn` at their scheduler-chosen position of the same frame in
+    which the message arrives; peers with different registrations; frames in random order."""
+    r = random.Random(seed)
+    n = r.choice([2, 3, 3])
+    regs = []
+    for p in range(n):
+        ts = [0, 2, 7, 8]
+        if r.random() < 0.3:
+            ts.remove(r.choice([0, 7]))
+        regs.append(ts)
+    lines = _header(r, n, None, regs)
+    for p in range(n):
+        lines.append('OP %d setup' % p)
+    lines.append('ROUND %d' % r.randint(6, 9))
+    peers = list(range(n))
+    h = 0
+    alive = []
+    val = 10
+
+    def spawn_some(k):
+        nonlocal h, val
+        for _ in range(k):
+            h += 1
+            p = r.choice(peers)
+            t = r.choice([0, 2, 7])
+            val += 1
+            lines.append('OP %d spawn %d 1 %d:%d' % (p, h, t, val))
+            alive.append(h)
+    spawn_some(4)
+    lines.append('DRAIN 60')
+    for _ in range(rounds):
+        if len(alive) < 3:
+            spawn_some(3)
+            lines.append('DRAIN 60')
+        x = r.choice(alive)
+        a, b = r.sample(peers, 2)
+        others = [e for e in alive if e != x]
+        kind = r.choice(['despawn', 'write', 'child', 'parent', 'joint', 'skin_target'])
+        val += 1
+        if kind == 'despawn':
+            lines.append('OP %d despawn %d' % (a, x))
+        elif kind == 'write':
+            lines.append('OP %d write %d %d %d' % (a, x, r.choice([0, 2, 7]), val))
+        elif kind == 'child':
+            lines.append('OP %d parent %d %d' % (a, x, r.choice(others)))
+        elif kind == 'parent':
+            lines.append('OP %d parent %d %d' % (a, r.choice(others), x))
+        elif kind == 'joint':
+            s = r.choice(others)
+            js = [x] + [r.choice(alive) for _ in range(r.randint(0, 2))]
+            r.shuffle(js)
+            lines.append('OP %d skin %d %s %d' % (a, s, ','.join(map(str, js)), val))
+        else:
+            lines.append('OP %d skin %d %s %d' % (a, x, ','.join(str(r.choice(others)) for _ in range(r.randint(0, 2))) or '-', val))
+        how = r.choice(['direct', 'app', 'app', 'later', 'none'])
+        if how == 'later':
+            lines.append('FRAME %d' % a)
+        if how in ('direct', 'later'):
+            lines.append('OP %d despawn %d' % (b, x))
+        elif how == 'app':
+            for k in range(3):
+                lines.append('OP %d appcmd %d despawn %d' % (b, k, x))
+        if how != 'none' or kind == 'despawn':
+            alive.remove(x)
+        order = peers[:]
+        r.shuffle(order)
+        for p in order:
+            lines.append('FRAME %d %d' % (p, r.randint(1, 2)))
+        if r.random() < 0.5:
+            lines.append('ROUND %d' % r.randint(1, 3))
+    lines.append('DRAIN 60')
     return '\n'.join(lines) + '\n', {}
